@@ -148,7 +148,7 @@ int cmd_readenum(FILE *job, FILE *out) {
         free(line);
     }
     if(c.ns == 0) die("readenum: no schedules");
-    run_opts o = {.chunk = chunk, .timeout_ms = 10000};
+    run_opts o = {.chunk = chunk, .timeout_ms = 10000, .confirm_hang = true};
     run_cases(c.n, run_one, &c, o, out);
     return 0;
 }
